@@ -98,10 +98,27 @@ class HostKeys(MutableMapping):
                 if entry is not None:
                     # Iterate over a copy: names are removed while we go.
                     for h in list(entry.hostnames):
-                        if self.check(h, entry.key):
+                        if self._has_entry(h, entry.key):
                             entry.hostnames.remove(h)
                     if len(entry.hostnames):
                         self._entries.append(entry)
+
+    def _has_entry(self, hostname, key):
+        """
+        Tests whether some entry already associates exactly ``key`` with
+        ``hostname`` (unlike `check`, also when that entry is shadowed by an
+        earlier key of the same type), so that loading never adds an entry
+        that is present already.
+        """
+        for e in self._entries:
+            if (
+                e.key is not None
+                and self._hostname_matches(hostname, e)
+                and e.key.get_name() == key.get_name()
+                and e.key.asbytes() == key.asbytes()
+            ):
+                return True
+        return False
 
     def save(self, filename):
         """
